@@ -363,11 +363,11 @@ def run_call(lib, real, case):
                 # python scalars stay scalars; the operator is replaced by its dense matrix
                 orc = ("ok", f(*dd, **kw))
             else:
-                dd = [x if torch.is_tensor(x) else x for x in dens]
+                # the caller's arguments with every operator replaced by its dense matrix; python scalars stay python
+                # scalars (torch.add(2.0, t) is accepted by torch, torch.isclose(0.5, t) is not: then both must raise)
+                dd = list(dens)
                 if not any(torch.is_tensor(x) for x in dd):
                     dd = [torch.tensor(x, dtype=dt) for x in dd]
-                elif not torch.is_tensor(dd[0]):
-                    dd[0] = torch.tensor(dd[0], dtype=dt)
                 orc = ("ok", f(*dd, **kw))
     except Exception as ex:              # noqa
         orc = ("err", ex)
@@ -680,6 +680,139 @@ def value_cases(ctx, rng, lib, insts):
 
 
 
+# ------------------------------------------------------------------------------------------ direct-predicate layer (X)
+
+def tspec(shape, data):
+    """tensor spec with arbitrary (non-integer, NaN) data"""
+    return {"shape": list(shape), "data": [float(x) for x in data]}
+
+
+def dense_expr(x):
+    """a DenseLinearOperator expression holding exactly the values of the tensor x"""
+    return {"cls": "Dense", "t": tspec(x.shape, x.reshape(-1).tolist())}
+
+
+X_PLANS = [("Dense", [], 3, 3), ("Dense", [2], 3, 3), ("Dense", [2], 2, 3), ("Dense", [2, 1], 2, 2), ("Diag", [], 3, 3), ("Diag", [2], 3, 3),
+           ("UserMinimal", [], 3, 3), ("UserMinimal", [2], 2, 3), ("Toeplitz", [3], 2, 2)]
+BIN_ELEMENTWISE = ["torch.add", "torch.sub", "torch.mul", "torch.div", "torch.isclose"]
+TENSOR_METHODS = ["torch.Tensor.add", "torch.Tensor.sub", "torch.Tensor.mul", "torch.Tensor.div", "torch.Tensor.matmul"]
+
+
+def direct_cases(ctx, rng, lib):
+    """Layer X: calls that are evaluated with the property predicate only (torch.f(args) vs torch.f on the densified
+    operands: same value and shape, or both raise; a loud NotImplementedError/TypeError is also right where the
+    property names no registration).  The list does not depend on the translator and only weakly on the tables:
+    every two-operand function the property names, the Tensor methods python's operators reach, and EVERY function
+    found in either runtime table are called in BOTH operand orders with the other operand a full tensor, a 0-d
+    tensor, a (b,1,1) tensor, a python scalar and an operator, with keywords and with extra positional arguments;
+    matmul with 1-D / 2-D / square / batch-broadcast left and right operands on batch and non-batch operators."""
+    cases = []
+    tables = set(lib.meta["first"]) | set(lib.meta["second"])
+    known = set(REQUIRED_FIRST) | set(REQUIRED_SECOND) | set(TENSOR_METHODS)
+    new_funcs = sorted(tables - known)             # registrations the property does not name: must still mean torch.f
+    def add(call, args, kw=None, okind=None):
+        cases.append({"call": call, "args": args, "kw": kw or {}, "dtype": "float64", "okind": okind, "x": True})
+    for cname, batch, m, n in X_PLANS:
+        if ctx.quick and (cname, batch) in (("UserMinimal", [2]), ("Toeplitz", [3])):
+            continue
+        e = None
+        for attempt in range(4):
+            try:
+                e = ob.gen(rng, cname, batch=batch, m=m, n=n)
+                if healthy(e, torch.float64, lib.root):
+                    break
+            except Exception:      # noqa
+                pass
+            e = None
+        if e is None:
+            continue
+        dn = ob.dense(e)
+        shp = list(dn.shape)
+        b, mm, nn = shp[:-2], shp[-2], shp[-1]
+        me = a_op(e)
+        nz = [1, -1, 2, -2, 4]
+        others = {
+            "full": a_t(rt(rng, shp, choices=nz)),
+            "0d": {"k": "t", "t": tspec([], [rng.choice([2.0, -4.0, 0.5])])},
+            "b11": a_t(rt(rng, [b[0] if b else 2, 1, 1], choices=nz)),
+            "scalar": a_s(rng.choice([2, -4, 0.5])),
+            "operator": a_op(ob.gen(rng, "Dense", batch=b, m=mm, n=nn)),
+        }
+        near = (dn + torch.tensor([rng.choice([0, 0, 0.5, -0.5, 1, -1, 2]) for _ in range(dn.numel())], dtype=torch.float64).reshape(shp))
+        near = {"k": "t", "t": tspec(shp, near.reshape(-1).tolist())}
+        al = rng.choice([2, -1, 3])
+        for f in BIN_ELEMENTWISE:
+            for ok, x in others.items():
+                if f == "torch.div" and ok == "operator":
+                    continue        # outside div's documented signature (float | Tensor): visible exclusion `div_by_operator`
+                add(f, [me, x], okind=ok)
+                add(f, [x, me], okind=ok)
+        for f in TENSOR_METHODS[:4]:
+            for ok in ("full", "0d", "b11"):
+                add(f, [others[ok], me], okind=ok)
+        # keywords and extra positional arguments, both orders
+        for f in ("torch.add", "torch.sub", "torch.Tensor.add", "torch.Tensor.sub"):
+            for ok in ("full", "0d"):
+                if not f.startswith("torch.Tensor."):
+                    add(f, [me, others[ok]], {"alpha": al}, okind=ok)
+                add(f, [others[ok], me], {"alpha": al}, okind=ok)
+        # isclose: |x - y| is in {0, .5, 1, 2}: with atol=.75 (rtol=0: symmetric in the operands) the entries .5 apart are
+        # close, with the defaults they are not; (rtol, atol) = (.5, .25) depends on which operand is `other`
+        for x, y in ((me, near), (near, me)):
+            add("torch.isclose", [x, y], okind="near")
+            add("torch.isclose", [x, y], {"rtol": 0.0, "atol": 0.75}, okind="near")
+            add("torch.isclose", [x, y], {"atol": 0.75, "rtol": 0.0, "equal_nan": True}, okind="near")
+            add("torch.isclose", [x, y], {"rtol": 0.5, "atol": 0.25}, okind="near")
+            add("torch.isclose", [x, y, a_s(0.0), a_s(0.75)], okind="near")
+            add("torch.isclose", [x, y, a_s(0.0), a_s(0.75), a_s(True)], okind="near")
+            add("torch.isclose", [x, y, a_s(0.5), a_s(0.25)], okind="near")
+            add("torch.isclose", [x, y, a_s(0.0)], {"atol": 0.75}, okind="near")
+        if cname == "Dense" and not b:
+            # equal_nan matters only with NaNs at matching places
+            dnan = dn.clone()
+            dnan[0, 1] = float("nan")
+            opn = a_op(dense_expr(dnan))
+            tn = {"k": "t", "t": tspec(shp, dnan.reshape(-1).tolist())}
+            for x, y in ((opn, tn), (tn, opn)):
+                add("torch.isclose", [x, y], {"equal_nan": True}, okind="nan")
+                add("torch.isclose", [x, y, a_s(1e-05), a_s(1e-08), a_s(True)], okind="nan")
+                add("torch.isclose", [x, y], okind="nan")
+        # matmul: left operands of an operator in second position / right operands in first position
+        lefts = {"2d": rt(rng, b + [2, mm]), "1d": rt(rng, [mm]), "square": rt(rng, b + [mm, mm]), "bcast": rt(rng, ([2] if not b else []) + [1, mm]),
+                 "2d-nobatch": rt(rng, [2, mm])}
+        rights = {"2d": rt(rng, b + [nn, 2]), "1d": rt(rng, [nn]), "square": rt(rng, b + [nn, nn]), "bcast": rt(rng, ([2] if not b else []) + [nn, 1]),
+                  "2d-nobatch": rt(rng, [nn, 2])}
+        for f in ("torch.matmul", "torch.Tensor.matmul", "binop:@"):
+            for ok, x in lefts.items():
+                add(f, [a_t(x), me], okind=ok)
+            if f != "torch.Tensor.matmul":
+                for ok, x in rights.items():
+                    add(f, [me, a_t(x)], okind=ok)
+        if mm == nn:
+            # a function the property names for the first position only, operator second: loud or the dense value
+            lhs = 2.0 * torch.eye(mm, dtype=torch.float64) + torch.diag(torch.ones(mm - 1, dtype=torch.float64), 1)
+            add("torch.linalg.solve", [{"k": "t", "t": tspec([mm, mm], lhs.reshape(-1).tolist())}, me], okind="square")
+        add("torch.matmul", [a_op(ob.gen(rng, "Dense", batch=b, m=2, n=mm)), me], okind="operator")
+        add("torch.matmul", [me, a_op(ob.gen(rng, "Dense", batch=b, m=nn, n=2))], okind="operator")
+        # python operators with the new operand kinds
+        for sym in "+-*/":
+            for ok in ("0d", "b11"):
+                add("binop:" + sym, [me, others[ok]], okind=ok)
+                add("binop:" + sym, [others[ok], me], okind=ok)
+        # registrations the property does not name (none on the pinned tree)
+        for f in new_funcs:
+            add(f, [me], okind="none")
+            for ok, x in others.items():
+                add(f, [me, x], okind=ok)
+                add(f, [x, me], okind=ok)
+            add(f, [a_t(lefts["1d"]), me], okind="1d")
+            add(f, [me, a_t(rights["1d"])], okind="1d")
+    # every function of the FIRST table that is also reachable with the operator second (e.g. registered
+    # symmetrically) is covered above only if it is in `tables`; the ones the property names for the first position
+    # only must at least be loud with the operator second
+    return cases
+
+
 # ------------------------------------------------------------------------------------------ one-operand functions (F)
 
 # classes whose own methods are the generic / simple implementations: the dense comparison (L2) of the one-operand
@@ -824,16 +957,14 @@ def function_cases(ctx, rng, lib, insts):
     # registrations the property does not name (none on the pinned tree): whatever they are mapped to must still mean
     # torch.f on the dense matrix
     extra_first = [f for f in lib.meta["first"] if f not in REQUIRED_FIRST]
-    extra_second = [f for f in lib.meta["second"] if f not in REQUIRED_SECOND and f not in ("torch.isclose",)]
-    if extra_first or extra_second:
+    if extra_first:
         for cname, e in ref_instances(ctx, rng, lib)[:12]:
             dn = ob.dense(e)
             tsame = a_t(rt(rng, list(dn.shape)))
             for f in extra_first:
                 add(f, e, "float64", l2=True)
                 add(f, e, "float64", [tsame], l2=True)
-            for f in extra_second:
-                cases.append({"call": f, "args": [tsame, a_op(e)], "kw": {}, "dtype": "float64", "fargs": None, "l2": True, "cmp": "direct"})
+    # (extra registrations for the SECOND position are exercised by the direct-predicate layer X)
     for cname, e in psd_instances(ctx, rng, lib):
         dn = ob.dense(e)
         shp = list(dn.shape)
@@ -1005,19 +1136,43 @@ def describe_case(case, out):
     if d[0] == "call":
         route = "second" if d[3][:2] == [1, 0] else "first"
     other = "none"
-    if len(kinds) == 2:
-        if len(opi) == 2:
+    if len(kinds) >= 2:
+        if len([i for i in opi if i < 2]) == 2:
             other = "operator"
         else:
-            oi = 1 - opi[0] if opi else 0
+            oi = 1 - opi[0] if (opi and opi[0] < 2) else 0
             other = {"t": "tensor", "s": "scalar"}.get(kinds[oi][0], kinds[oi][0])
     kw = case.get("kw") or {}
     sem = call.split(".")[-1].replace("binop:", "")
     sem = {"+": "add", "-": "sub", "*": "mul", "/": "div", "@": "matmul"}.get(sem, sem)
-    return {"call": call, "sem": sem, "route": route, "other": other,
-            "kw": "alpha" if "alpha" in kw else ("tol" if "rtol" in kw else "none"),
-            "class": kinds[opi[0]][1] if opi else None,
-            "method": d[2] if d[0] == "call" else None}
+    key = {"call": call, "sem": sem, "route": route, "other": other,
+           "kw": "alpha" if "alpha" in kw else ("tol" if ("rtol" in kw or "atol" in kw) else ("none" if not kw else ",".join(sorted(kw)))),
+           "class": kinds[opi[0]][1] if opi else None,
+           "method": d[2] if d[0] == "call" else None}
+    if len(kinds) > 2:
+        key["npos"] = len(kinds) - 2          # extra positional arguments after the two operands
+    if case.get("okind"):
+        key["okind"] = case["okind"]          # shape class of the other operand (direct-predicate layer X)
+    return key
+
+
+def swap_explains(case, out, real):
+    """is the observed value what the dense computation gives with the two operands exchanged (everything else as
+    the caller wrote it)?  This is the signature of the two recorded `registered symmetrically` defects."""
+    try:
+        if out["res"][0] != "ok" or len(case["args"]) < 2 or case["call"].startswith("binop:"):
+            return False
+        dt = DTYPES[case.get("dtype", "float64")]
+        dd = [real.dense(a, dt) for a in case["args"]]
+        dd[0], dd[1] = dd[1], dd[0]
+        if not torch.is_tensor(dd[0]):
+            dd[0] = torch.tensor(dd[0], dtype=dt)
+        with warnings.catch_warnings():
+            warnings.simplefilter("ignore")
+            sw = resolve_torch(case["call"])(*dd, **dict(case.get("kw") or {}))
+        return same_value(out["res"][1], sw)
+    except Exception:          # noqa
+        return False
 
 
 # ------------------------------------------------------------------------------------------ dispatch cases
@@ -1188,17 +1343,32 @@ def res_repr(r):
 
 
 def expected_loud(case, out):
+    """the call is outside what the property names for this operand position (division with the operator as the
+    divisor, a function registered for the first position only called with the operator second, ...): a loud
+    NotImplementedError / TypeError is a correct answer.  A VALUE is never exempt: it must be the dense value."""
     kinds = out["kinds"]
+    call = case["call"]
+    if len(kinds) < 2 or kinds[0][0] == "op" or kinds[1][0] != "op":
+        return False
+    if call.startswith("binop:"):
+        return call[6:] == "/"
+    return call not in REQUIRED_SECOND and call != "torch.isclose"
+
+
+def outside_signature_loud(case, res):
+    """scope decision (design_notes/C15.md): a 0-d tensor operand of add / sub is outside the operand shapes `... #M #N`
+    that LinearOperator.__add__ documents; the library rejects it loudly (ValueError from DenseLinearOperator), which is
+    accepted -- a VALUE returned for such a call must still be the dense value"""
     base = case["call"].replace("binop:", "").split(".")[-1]
-    return base in ("/", "div") and len(kinds) == 2 and kinds[0][0] != "op" and kinds[1][0] == "op"
+    return case.get("okind") == "0d" and base in ("add", "sub", "+", "-") and exn_name(res[1]) == "ValueError"
 
 
 def cell_of(k):
     """coarse structural cell of a failing value case (the attribute known-finding keys are written against)"""
     f = k.get("fail", "")
-    if k["call"] == "torch.add" and k["route"] == "second" and k["kw"] == "alpha" and f == "value":
+    if k["call"] == "torch.add" and k["route"] == "second" and k["kw"] == "alpha" and f == "value" and k.get("swap"):
         return "add-alpha-second-misapplied"
-    if k["sem"] == "isclose" and k["route"] == "second" and f == "value":
+    if k["sem"] == "isclose" and k["route"] == "second" and f == "value" and k.get("swap"):
         return "isclose-second-swapped"
     if k["route"] == "second" and k["kw"] == "alpha" and f == "raises:TypeError" and k["sem"] in ("add", "sub"):
         return "alpha-rejected-second"
@@ -1213,7 +1383,8 @@ def cell_of(k):
         return "zero-add-scalar"
     if k["sem"] in ("add", "sub") and k["other"] == "scalar" and f.startswith("raises:"):
         return "scalar-addsub-unsupported"
-    return "%s/%s/%s/%s/%s/%s" % (k["class"], k["sem"], k["route"], k["other"], k["kw"], f)
+    extra = ("/pos%d" % k["npos"] if k.get("npos") else "") + ("/" + k["okind"] if k.get("okind") else "")
+    return "%s/%s/%s/%s/%s/%s%s" % (k["class"], k["sem"], k["route"], k["other"], k["kw"], f, extra)
 
 
 def check_value_case(ctx, lib, real, case):
@@ -1221,16 +1392,14 @@ def check_value_case(ctx, lib, real, case):
     out = run_call(lib, real, case)
     res, orc = out["res"], out["oracle"]
     fail = None
-    if expected_loud(case, out):
-        # division with the operator as the divisor is not among the registered second-argument functions:
-        # the property demands a loud NotImplementedError / TypeError, not a value
-        if res[0] == "ok":
-            fail = "no-raise"
-        elif exn_name(res[1]) not in ("NotImplementedError", "TypeError"):
+    if expected_loud(case, out) and res[0] == "err":
+        # not among the registered second-argument functions: a loud NotImplementedError / TypeError is right
+        if exn_name(res[1]) not in ("NotImplementedError", "TypeError"):
             fail = "raises:%s" % exn_name(res[1])
     elif orc[0] == "ok":
         if res[0] == "err":
-            fail = "raises:%s" % exn_name(res[1])
+            if not outside_signature_loud(case, res):
+                fail = "raises:%s" % exn_name(res[1])
         elif not same_value(res[1], orc[1]):
             fail = "value"
     else:
@@ -1250,35 +1419,157 @@ def check_value_case(ctx, lib, real, case):
     return out, fail
 
 
+# ------------------------------------------------------------------------------------------ shrinking / reporting
+
+CLASS_RANK = {"DenseLinearOperator": 0, "DiagLinearOperator": 1, "UserMinimal": 2}
+
+
+def value_key(case, out, fail, real):
+    k2 = dict(describe_case(case, out), fail=fail)
+    if fail == "value" and k2["route"] == "second":
+        k2["swap"] = swap_explains(case, out, real)
+    k2["cell"] = cell_of(k2)
+    return k2
+
+
+def _arg_tensor(a):
+    if a["k"] == "op":
+        return ob.dense(a["e"])
+    if a["k"] == "t":
+        return ob.tt(a["t"])
+    return None
+
+
+def _with_tensor(a, x):
+    if a["k"] == "op":
+        return a_op(dense_expr(x))
+    return {"k": "t", "t": tspec(x.shape, x.reshape(-1).tolist())}
+
+
+def shrink_candidates(case):
+    """simpler variants of a failing value case, most aggressive first within each family"""
+    args = case["args"]
+    mk = lambda **ch: dict(case, **ch)
+    # the operator(s) as plain DenseLinearOperators of the same values
+    if any(a["k"] == "op" and a["e"].get("cls") != "Dense" for a in args):
+        yield mk(args=[_with_tensor(a, ob.dense(a["e"])) if a["k"] == "op" else a for a in args])
+    ts = [_arg_tensor(a) for a in args]
+    dense_only = all(a["k"] != "op" or a["e"].get("cls") == "Dense" for a in args)
+    if dense_only:
+        nb = [max(0, t.dim() - 2) if t is not None else 0 for t in ts]
+        top = max(nb)
+        if top > 0:
+            yield mk(args=[_with_tensor(a, t[0]) if (t is not None and n == top) else a for a, t, n in zip(args, ts, nb)])
+        opi = [i for i, a in enumerate(args) if a["k"] == "op"]
+        sem = case["call"].split(".")[-1].replace("binop:", "")
+        if opi and ts[opi[0]].shape[-1] > 2 or opi and ts[opi[0]].shape[-2] > 2:
+            i0 = opi[0]
+            new = []
+            for i, (a, t) in enumerate(zip(args, ts)):
+                if t is None or t.dim() == 0:
+                    new.append(a)
+                elif sem in ("matmul", "@") and i < 2 and i != i0 and a["k"] != "op":
+                    if i < i0:      # left operand: its last dimension is contracted
+                        new.append(_with_tensor(a, t[..., :2]))
+                    else:           # right operand: its first matrix dimension is contracted
+                        new.append(_with_tensor(a, t[:2] if t.dim() == 1 else t[..., :2, :]))
+                elif t.dim() >= 2 and tuple(t.shape[-2:]) == tuple(ts[i0].shape[-2:]):
+                    new.append(_with_tensor(a, t[..., :2, :2]))
+                elif t.dim() >= 2 and tuple(t.shape[-2:]) == (1, 1):
+                    new.append(a)
+                else:
+                    new = None
+                    break
+            if new is not None and sem in ("matmul", "@") and len(opi) > 1:
+                new = None
+            if new is not None:
+                yield mk(args=new)
+    kw = case.get("kw") or {}
+    for k in sorted(kw):
+        yield mk(kw={a: b for a, b in kw.items() if a != k})
+    if len(args) > 2 and args[-1]["k"] == "s":
+        yield mk(args=args[:-1])
+
+
+def shrink_value_case(ctx, lib, real, case, out, k2, budget=40):
+    """greedy shrinking: a candidate replaces the case when it still violates the property in the same way
+    (same call, route, kind of the other operand, keyword class, failure kind) and is not a listed known finding"""
+    want = {a: k2.get(a) for a in ("call", "route", "other", "fail")}
+    cur = (case, out, k2)
+    progress = True
+    while progress and budget > 0:
+        progress = False
+        for cand in shrink_candidates(cur[0]):
+            budget -= 1
+            try:
+                o2, f2 = check_value_case(ctx, lib, real, cand)
+            except Exception:      # noqa
+                continue
+            if not f2:
+                continue
+            kk = value_key(cand, o2, f2, real)
+            if any(kk.get(a) != v for a, v in want.items()) or common.kf_match(PROP, kk) is not None:
+                continue
+            cur = (cand, o2, kk)
+            progress = True
+            break
+    return cur
+
+
+def arg_text(a, obj):
+    if a["k"] == "op":
+        return "%s(shape %s)" % (type(obj).__name__, list(obj.shape))
+    if a["k"] == "t":
+        return "Tensor(shape %s)" % list(a["t"]["shape"])
+    return repr(a["v"])
+
+
+def call_text(case, out):
+    args = [arg_text(a, o) for a, o in zip(case["args"], out["objs"])]
+    kw = ["%s=%r" % (k, v) for k, v in sorted((case.get("kw") or {}).items())]
+    c = case["call"]
+    if c.startswith("binop:"):
+        return "%s %s %s" % (args[0], c[6:], args[1])
+    return "%s(%s)" % (c, ", ".join(args + kw))
+
+
 def run(ctx):
     torch.set_num_threads(1)
     t0 = time.time()
     rng = random.Random(ctx.seed)
     tr_err = None
+    last_good = fallback_meta()          # tables of the last successful translation (read before it is overwritten)
     try:
         meta = regenerate()
     except tr.Untranslatable as ex:
         meta, tr_err = None, str(ex)
+    except Exception as ex:              # noqa -- a crash of the translator is a rejection too (fail closed)
+        meta, tr_err = None, "translator crashed: %r" % (ex,)
     if meta is None:
         ctx.say("translator rejected the dispatch source:", tr_err)
+        broken = {"kind": "translator-rejected-source", "error": tr_err,
+                  "obligation": "coq/C15/gen/Dispatch.v could not be regenerated; the table theorems of coq/C15/Property.v are not re-proved"}
         found = 0
-        fb = fallback_meta()
-        if fb is not None:
+        # the search does not need the translator: tables and class hierarchy by introspection of the imported package
+        try:
+            imeta = tr.introspect(common.REPO, extra_classes=extra_classes(), last_good=last_good)
+        except Exception:                # noqa
+            ctx.say(traceback.format_exc()[-600:])
+            imeta = last_good
+        if imeta is not None:
             try:
-                found = search_impl(ctx, fb, rng)
-            except Exception:
-                ctx.say(traceback.format_exc()[-800:])
+                found = search_impl(ctx, imeta, rng, broken)
+            except Exception:            # noqa
+                ctx.say(traceback.format_exc()[-1500:])
         if not found:
-            ctx.violation({"kind": "translator-rejected-source", "error": tr_err,
-                           "obligation": "coq/C15/gen/Dispatch.v could not be regenerated; the table theorems of coq/C15/Property.v are not re-proved"},
-                          no_input=True)
+            ctx.violation(broken, no_input=True)
         ctx.coverage.update({"obligations": len(common.property_obligations(PROP)), "discharged": 0, "checker_cmd": "translator failed",
                              "trusted_base": common.COQ_TRUSTED, "evaluations": 0, "distinct_nontrivial": 0, "rule": "translator failed",
                              "samples": [tr_err]})
         return
 
     def on_fail(info):
-        return search_impl(ctx, meta, random.Random(ctx.seed)) > 0
+        return search_impl(ctx, meta, random.Random(ctx.seed), {"kind": "broken-proof-obligation", "obligation": info}) > 0
     ok = common.proof_stage(ctx, on_fail)
     if not ok:
         ctx.coverage.update({"trusted_base": common.COQ_TRUSTED, "evaluations": 0, "distinct_nontrivial": 0, "rule": "proof stage failed",
@@ -1289,18 +1580,39 @@ def run(ctx):
     ctx.coverage["wall_breakdown_s"] = dict(stats.get("wall_breakdown_s", {}), total=round(time.time() - t0, 1))
 
 
-def search_impl(ctx, meta, rng):
-    """the proof / translator failed: search the implementation for a concrete failing input (thorough width,
-    direct predicate only)"""
-    class C:            # a thorough-width context for the generators
+def search_impl(ctx, meta, rng, broken=None):
+    """the proof / translator failed: search the implementation for a concrete failing input with the direct
+    predicate only -- first at the quick width (answers within seconds for most changes), then at the thorough width"""
+    class Quick:
+        quick = True
+        seed = ctx.seed
+
+    class Thorough:
         quick = False
         seed = ctx.seed
-    stats = correspondence(ctx, meta, rng, coq=False, width=C)
-    return stats.get("reported", 0)
+    total = 0
+    for width in (Quick, Thorough):
+        stats = correspondence(ctx, meta, random.Random(ctx.seed), coq=False, width=width, broken=broken)
+        total += stats.get("reported", 0)
+        if total:
+            break
+    return total
 
 
-def correspondence(ctx, meta, rng, coq=True, width=None):
+def correspondence(ctx, meta, rng, coq=True, width=None, broken=None):
+    """coq=False: search mode (direct predicate only; a harness error on one case must not stop the search)"""
     w = width or ctx
+    search = not coq
+    harness_errors = []
+
+    def guarded(fn, *a):
+        if not search:
+            return fn(*a)
+        try:
+            return fn(*a)
+        except Exception:        # noqa
+            harness_errors.append(traceback.format_exc()[-400:])
+            return None
     gen = os.path.join(common.COQ, PROP, "gen")
     for fn_ in os.listdir(gen):
         if fn_.startswith("cases_") or fn_.startswith(".cases_"):
@@ -1384,8 +1696,10 @@ def correspondence(ctx, meta, rng, coq=True, width=None):
                     if obs != ("raise", "NotImplementedError"):
                         # direct predicate: an unregistered function did not raise NotImplementedError
                         reported += bool(ctx.violation(
-                            {"kind": "unregistered-function-not-rejected", "function": nm, "class": pc, "operator_second": second,
-                             "observed": res_repr(res)}, key={"call": nm, "fail": "unregistered-not-rejected", "class": pc}))
+                            dict({"kind": "unregistered-function-not-rejected", "function": nm, "class": pc, "operator_second": second,
+                                  "call": "%s(%s)" % (nm, ", ".join(["Tensor(3,3)" if second else pc] + ([pc] if second else []) + ["..."] * (r[2] - (2 if second else 1)))),
+                                  "observed": res_repr(res)}, **({"broken_obligation": broken} if broken else {})),
+                            key={"call": nm, "fail": "unregistered-not-rejected", "class": pc}))
         tb["unregistered_s"] = round(time.time() - t1, 1)
         t1 = time.time()
         # ---- V: values
@@ -1394,58 +1708,101 @@ def correspondence(ctx, meta, rng, coq=True, width=None):
         vouts = []
         keys_seen = {}
         fails = {}
-        for ci, case in enumerate(vcs):
+
+        def one_value(case, sink):
             out, fail = check_value_case(ctx, lib, real, case)
             key = describe_case(case, out)
-            vouts.append((case, out, fail, key))
-            keys_seen[json.dumps({k: key[k] for k in ("call", "route", "other", "kw", "class")}, sort_keys=True)] = 1
+            sink.append((case, out, fail, key))
+            keys_seen[json.dumps({k: key.get(k) for k in ("call", "route", "other", "kw", "class", "npos", "okind")}, sort_keys=True)] = 1
             # a dispatch observation comes for free with every value case
-            dcs.append({"call": case["call"], "kinds": out["kinds"], "obs": out["disp"] if out["disp"][0] != "none" else ("raise", "OtherError")})
+            if not (out["disp"][0] == "call" and -1 in out["disp"][3]):
+                dcs.append({"call": case["call"], "kinds": out["kinds"], "obs": out["disp"] if out["disp"][0] != "none" else ("raise", "OtherError")})
             if fail:
-                k2 = dict(key, fail=fail)
-                k2["cell"] = cell_of(k2)
+                k2 = value_key(case, out, fail, real)
                 sig = json.dumps(k2, sort_keys=True)
                 if sig not in fails:
                     fails[sig] = (k2, case, out)
+        for ci, case in enumerate(vcs):
+            guarded(one_value, case, vouts)
         tb["values_s"] = round(time.time() - t1, 1)
+        t1 = time.time()
+        # ---- X: direct predicate only (operand kinds / keywords / extra positional arguments / both orders;
+        #         generated without the translator's tables except for "what else is registered")
+        xcs = direct_cases(w, rng, lib)
+        xouts = []
+        for case in xcs:
+            guarded(one_value, case, xouts)
+        tb["direct_s"] = round(time.time() - t1, 1)
         t1 = time.time()
         # ---- F: one-operand functions
         fcs = function_cases(w, rng, lib, insts)
         fouts = []
         ffails = {}
         fkeys_seen = set()
-        for case in fcs:
+
+        def one_function(case):
             out, fail = check_function_case(lib, real, case)
             fouts.append((case, out, fail))
-            fkeys_seen.add((case["call"], out["kinds"][0][1], json.dumps(sorted((case.get("kw") or {}).keys())), len(case["args"]), case["l2"]))
+            fkeys_seen.add((case["call"], next((x[1] for x in out["kinds"] if x[0] == "op"), None),
+                            json.dumps(sorted((case.get("kw") or {}).keys())), len(case["args"]), case["l2"]))
             dcs.append({"call": case["call"], "kinds": out["kinds"], "obs": out["disp"] if out["disp"][0] != "none" else ("raise", "OtherError")})
             if fail:
                 k2 = fkey(case, out, fail)
                 sig = json.dumps(k2, sort_keys=True)
                 if sig not in ffails:
                     ffails[sig] = (k2, case, out)
+        for case in fcs:
+            guarded(one_function, case)
         tb["functions_s"] = round(time.time() - t1, 1)
+        t1 = time.time()
+        # ---- shrink the failing value cases that are not listed known findings (simplest operator class first)
+        order = sorted(fails.items(), key=lambda kv: (CLASS_RANK.get(kv[1][0].get("class"), 9), kv[0]))
+        to_report = []
+        n_new = 0
+        for sig, (k2, case, out) in order:
+            if common.kf_match(PROP, k2) is not None:
+                to_report.append((k2, case, out, None))
+                continue
+            n_new += 1
+            if n_new <= 12:
+                c2, o2, kk = shrink_value_case(ctx, lib, real, case, out, k2)
+                to_report.append((kk, c2, o2, case if c2 is not case else None))
+            else:
+                to_report.append((k2, case, out, None))
+        tb["shrink_s"] = round(time.time() - t1, 1)
         t1 = time.time()
     finally:
         uninstall_tf_probe(lib)
         lib.uninstall()
+    extra_info = {}
+    if broken is not None:
+        extra_info["broken_obligation"] = broken
+    if harness_errors:
+        ctx.say("search: %d cases could not be evaluated by the harness (first: %s)" % (len(harness_errors), harness_errors[0][-200:]))
     # report direct-predicate failures (one per structural key)
-    for sig, (k2, case, out) in sorted(fails.items()):
+    for (k2, case, out, orig) in to_report:
         if ctx.violations >= 40:
             break           # enough concrete failing inputs; the remaining distinct keys are counted in the evidence
-        reported += bool(ctx.violation(
-            {"kind": "dispatch-value-mismatch", "case": {"call": case["call"], "args": case["args"], "kw": case["kw"], "dtype": case.get("dtype", "float64")},
-             "observed": res_repr(out["res"]), "through_method": res_repr(out.get("method")), "dense_oracle": res_repr(out["oracle"]),
-             "dispatched": list(out["disp"]), "what": "torch call on operator disagrees with %s" % ("the method" if k2["fail"] == "differs-from-method" else "the dense computation")},
-            key=k2))
+        rp = {"kind": "dispatch-value-mismatch", "call": call_text(case, out),
+              "case": {"call": case["call"], "args": case["args"], "kw": case["kw"], "dtype": case.get("dtype", "float64")},
+              "observed": res_repr(out["res"]), "through_method": res_repr(out.get("method")), "dense_oracle": res_repr(out["oracle"]),
+              "dispatched": list(out["disp"]),
+              "what": "%s: the call on the operator disagrees with %s" % (
+                  call_text(case, out), {"differs-from-method": "the method the dispatcher reached, called directly",
+                                         "differs-from-expected-method": "the corresponding method"}.get(k2["fail"], "torch on the densified operands"))}
+        if orig is not None:
+            rp["shrunk_from"] = {"call": orig["call"], "args": orig["args"], "kw": orig["kw"]}
+        rp.update(extra_info)
+        reported += bool(ctx.violation(rp, key=k2))
     for sig, (k2, case, out) in sorted(ffails.items()):
-        reported += bool(ctx.violation(
-            {"kind": "function-dispatch-mismatch", "case": {"call": case["call"], "args": case["args"], "kw": case["kw"], "dtype": case.get("dtype", "float64"),
-                                                            "l2": case["l2"], "cmp": case["cmp"], "fargs": case["fargs"], "function": True},
-             "observed": res_repr(out["res"]), "through_method": res_repr(out.get("method")), "dense_oracle": res_repr(out["oracle"]),
-             "dispatched": list(out["disp"]),
-             "what": "torch.f(op, ...) disagrees with %s" % ("op.method(...)" if k2["layer"] == "method" else "torch.f(dense, ...)")},
-            key=k2))
+        rp = {"kind": "function-dispatch-mismatch", "call": call_text(case, out),
+              "case": {"call": case["call"], "args": case["args"], "kw": case["kw"], "dtype": case.get("dtype", "float64"),
+                       "l2": case["l2"], "cmp": case["cmp"], "fargs": case["fargs"], "function": True},
+              "observed": res_repr(out["res"]), "through_method": res_repr(out.get("method")), "dense_oracle": res_repr(out["oracle"]),
+              "dispatched": list(out["disp"]),
+              "what": "torch.f(op, ...) disagrees with %s" % ("op.method(...)" if k2["layer"] == "method" else "torch.f(dense, ...)")}
+        rp.update(extra_info)
+        reported += bool(ctx.violation(rp, key=k2))
     stats = {"reported": reported}
     if not coq:
         return stats
@@ -1528,10 +1885,11 @@ def correspondence(ctx, meta, rng, coq=True, width=None):
             "(validated by the value correspondence for every class; the contracts of the 14 delegating root methods are PROVED from their translated bodies)",
             "python's object model as modelled in coq/C15/Model.v: MRO lookup, the binary-operator protocol, torch.overrides._get_overloaded_args",
             "correspondence harness harness/c15.py (spies on class __dict__ entries, opbuild builders and dense oracle, comparators coq/C15/Check.v incl. the rational tensor algebra TQ)"],
-        "evaluations": len(rcases) + n_dcs_all + len(ucs) + len(vouts) + len(fouts),
+        "evaluations": len(rcases) + n_dcs_all + len(ucs) + len(vouts) + len(xouts) + len(fouts),
         "distinct_nontrivial": nontriv,
         "rule": "value cases (operator built by opbuild from small-integer data, real torch call, densified result) counted distinct by "
-                "(call, route first/second, kind of the other operand, keyword, operator class) plus one-operand function cases counted distinct by "
+                "(call, route first/second, kind and shape class of the other operand, keyword, number of extra positional arguments, operator class; "
+                "this includes the direct-predicate-only layer X) plus one-operand function cases counted distinct by "
                 "(function, operator class, keyword names, number of positional arguments, with/without dense comparison); "
                 "dispatch-only, resolution and unregistered-function cases are not counted",
         "resolution_cases": len(rcases), "dispatch_observations": n_dcs_all, "dispatch_cases": len(dcs), "distinct_dispatch_cells": len(dkeys),
@@ -1539,6 +1897,8 @@ def correspondence(ctx, meta, rng, coq=True, width=None):
         "unregistered_probes": n_u, "unregistered_reached_handler": len(ucs), "unregistered_unreached": len(unreached),
         "unregistered_functions": len(ufuncs),
         "value_cases": len(vouts), "value_classes": len(insts), "function_cases": len(fouts),
+        "direct_only_cases": len(xouts), "direct_only_failing": sum(1 for c, o, f, k in xouts if f),
+        "direct_only_forms": sorted({"%s|%s|%s|pos%d" % (c["call"], c.get("okind"), ",".join(sorted(c["kw"])), max(0, len(c["args"]) - 2)) for c, o, f, k in xouts})[:400],
         "function_cases_with_dense_comparison": sum(1 for c, o, f in fouts if c["l2"]), "function_failing_keys": len(ffails),
         "function_model_disagreements_unexplained": n_f_dis, "instances_skipped_unhealthy": skipped,
         "direct_predicate_failing_keys": len(fails),
@@ -1555,10 +1915,15 @@ def correspondence(ctx, meta, rng, coq=True, width=None):
 
 def replay(rp):
     torch.set_num_threads(1)
-    meta = fallback_meta() or regenerate()
+    try:
+        meta = tr.introspect(common.REPO, extra_classes=extra_classes(), last_good=fallback_meta())
+    except Exception:        # noqa
+        meta = fallback_meta() or regenerate()
     lib = Lib(meta)
     real = Real()
     case = rp.get("case")
+    if rp.get("broken_obligation"):
+        print("broken obligation:", json.dumps(rp["broken_obligation"])[:600])
     if not case:
         print("replay file has no executable case:", json.dumps(rp)[:600])
         return 1
@@ -1574,7 +1939,7 @@ def replay(rp):
     finally:
         uninstall_tf_probe(lib)
         lib.uninstall()
-    print("call      :", case["call"], case.get("kw"))
+    print("call      :", call_text(case, out), case.get("kw") or "")
     print("dispatched:", out["disp"])
     print("observed  :", res_repr(out["res"]))
     print("method    :", res_repr(out.get("method")))
